@@ -28,6 +28,12 @@ def __parse_date(_date: str) -> Optional[datetime]:
     return datetime.strptime(_date, __DATE_FORMAT)
 
 
+def __parse_datetime(_date: str) -> Optional[datetime]:
+    if len(_date) == 0 or _date == 'None':
+        return None
+    return datetime.fromisoformat(_date)
+
+
 def __parse_predecessors(_val: str) -> List[int]:
     if len(_val) == 0:
         return []
@@ -67,6 +73,8 @@ def read_csv(path: str, encoding='utf-8', delimiter=';') -> WBS:
             for k, v in header.items():
                 if k not in __DEFAULT_FIELDS:
                     kwargs[k] = row[v]
+            if 'min_start' in kwargs:
+                kwargs['min_start'] = __parse_datetime(kwargs['min_start'])
 
             raws.append(
                 TaskRaw(
